@@ -332,13 +332,28 @@ def cmd_check(argv):
     replays = []
     for kid, (cnt, k) in sorted(known_hits.items()):
         log(f"KNOWN-FINDING: property={prop} {k['id']} {k['what']} (seen {cnt}x)")
-    for sg, items in sorted(new.items()):
+    # minimise in parallel; root-cause oracles (O2 mutation, O5 model) first; beyond MAX_SHRINK signatures the
+    # replay file is the unshrunk failing plan (still explicit, still verified by a fresh-process replay)
+    MAX_SHRINK = int(os.environ.get("VERIF_MAX_SHRINK", "6"))
+    order = sorted(new.items(), key=lambda kv: ({"O2": 0, "O5": 1, "O4": 2, "O3": 3, "O1": 4}.get(json.loads(kv[0])[1], 9), kv[0]))
+    jobs = []
+    for rank, (sg, items) in enumerate(order):
         v, plan, seed = next(((v, p, s) for v, p, s in items if p is not None), items[0])
+        jobs.append((sg, items, v, plan, seed, rank < MAX_SHRINK))
+    from concurrent.futures import ThreadPoolExecutor
+    work_dir = work
+
+    def _do(job):
+        sg, items, v, plan, seed, do_shrink = job
         path = None
-        if plan is not None:
-            path = minimise_and_write(prop, plan, v, seed, work)
+        if plan is not None and do_shrink:
+            path = minimise_and_write(prop, plan, v, seed, work_dir)
         if path is None:
             path = write_replay_unshrunk(prop, v, plan, seed)
+        return path
+    with ThreadPoolExecutor(max_workers=8) as ex:
+        paths = list(ex.map(_do, jobs))
+    for (sg, items, v, plan, seed, _), path in zip(jobs, paths):
         replays.append(path)
         log(f"VIOLATION property={prop} replay={path}")
         log(f"  signature={sg} occurrences={len(items)} first: step {v['step']} {v['op']} {v['kind']}: {v['detail'][:300]}")
@@ -349,7 +364,8 @@ def cmd_check(argv):
         if exit_code == 0:
             exit_code = 2
     wall = time.time() - t0
-    write_evidence(prop, tier, vseed, agg, aggB, pair_checked, len(new), known_hits, wall, n, harness)
+    if not os.environ.get("VERIF_NO_EVIDENCE"):      # sensitivity runs aim at a scratch copy: never evidence
+        write_evidence(prop, tier, vseed, agg, aggB, pair_checked, len(new), known_hits, wall, n, harness)
     log(f"done: runs={agg['runs']}/{n} steps={agg['steps']} nontrivial={len(agg['share_sigs'])} faults={agg['faults_fired']} "
         f"pairs={pair_checked} new_violations={len(new)} known={len(known_hits)} wall={wall:.1f}s exit={exit_code}")
     if exit_code == 0:
